@@ -1,10 +1,205 @@
-(* C12 — placeholder while the proofs are being written. *)
-From FH Require Import Model.Base Gen.GenC12 Model.Limits.
+(* C12 — Concurrency and per-IP limits hold and their counters balance.  Statements only; proofs in
+   Proof/LimitsProof.v (accounting invariant) and Proof/LimitsBounds.v.
+   [reach cf s]: s is reachable from the empty server by any interleaving of the atomic steps of Serve (any number of
+   calls), acceptConn / wrapPerIPConn, wp.Serve, serveConnCounted / serveConnCleanup, workerFunc, ServeConn (any number of
+   concurrent calls), hijackConnHandler and further Close calls, for any remote addresses. *)
+From FH Require Import Model.Base Gen.GenC12 Model.Limits Spec.LimitsSpec Proof.LimitsProof Proof.LimitsBounds Proof.LimitsPool.
 Open Scope Z_scope.
 
-Example C12_ex_serveconn :
-  match run (mkCfg 1 1 false) init [LServeConn (ATcp [1;1;1;1]%N); LRegister 0; LTryAcquire 0; LOpenInc 0] with
-  | Some s => n_serving s = 1 /\ get_open s = 1 /\ get_concurrency s = 1
+(* Never more than Concurrency connections inside their request loop at once, for the uses the documentation of
+   Server.Concurrency covers ("Concurrency only works if you either call Serve once, or only ServeConn multiple times"). *)
+Theorem C12_concurrency_bound : forall cf s, reach cf s -> documented_use s -> n_serving s <= effConc cf.
+Proof. exact concurrency_bound. Qed.
+Print Assumptions C12_concurrency_bound.
+
+(* In every use, each entry point keeps the bound for its own connections: all ServeConn calls together, and each Serve call. *)
+Theorem C12_concurrency_bound_per_entry : forall cf s, reach cf s ->
+  n_serving_sc s <= effConc cf /\ forall k, n_serving_loop s k <= effConc cf.
+Proof. exact concurrency_bound_per_entry. Qed.
+Print Assumptions C12_concurrency_bound_per_entry.
+
+(* The restriction is needed: with two Serve calls and Concurrency = 1 two connections are served at once (documented behaviour,
+   not a finding). *)
+Theorem C12_concurrency_bound_needs_documented_use :
+  exists cf s, reach cf s /\ ~ documented_use s /\ effConc cf < n_serving s.
+Proof. exact concurrency_bound_needs_documented_use. Qed.
+Print Assumptions C12_concurrency_bound_needs_documented_use.
+
+(* Never more than MaxConnsPerIP open connections of one IPv4 address inside their request loop (any entry points). *)
+Theorem C12_perip_bound : forall cf s, reach cf s -> 0 < maxip cf -> forall ip, ip <> 0%N -> n_served_from s ip <= maxip cf.
+Proof. exact perip_bound'. Qed.
+Print Assumptions C12_perip_bound.
+
+(* ... the same for every connection that holds a per-IP unit after passing the check (also those still in the acceptor,
+   being torn down, or hijacked and not yet closed). *)
+Theorem C12_perip_bound_registered : forall cf s, reach cf s -> 0 < maxip cf -> forall ip, n_live s ip <= maxip cf.
+Proof. exact live_bound. Qed.
+Print Assumptions C12_perip_bound_registered.
+
+(* Over-limit arrivals.  Per IP: 429, closed, counters as before; the goroutine has no other move. *)
+Theorem C12_rejections_perip : forall cf s c r, reach cf s -> nth_error (conns s) c = Some r -> ph r = PArrived ->
+  maxip cf <= n_live s (cip r) ->
+  exists s1 s2 r2, step cf s (LRegister c) = Some s1 /\ step cf s1 (LRejectIP c) = Some s2 /\
+    nth_error (conns s2) c = Some r2 /\ rejected_with StatusTooManyRequests r2 /\
+    concurrency s2 = concurrency s /\ open s2 = open s /\ (forall ip, perip s2 ip = perip s ip).
+Proof. exact reject_ip. Qed.
+Print Assumptions C12_rejections_perip.
+
+(* ServeConn with all slots taken: 503, closed, concurrency and open as before, its per-IP unit given back. *)
+Theorem C12_rejections_serveconn : forall cf s c r, reach cf s -> nth_error (conns s) c = Some r -> ph r = PChecked -> cvia r = VConn ->
+  effConc cf <= concurrency s ->
+  exists s1 s2 s3 r3, step cf s (LTryAcquire c) = Some s1 /\ step cf s1 (LAcquireFail c) = Some s2 /\
+    step cf s2 (LRejectConc c) = Some s3 /\
+    nth_error (conns s3) c = Some r3 /\ rejected_with StatusServiceUnavailable r3 /\
+    concurrency s3 = concurrency s /\ open s3 = open s /\
+    (forall ip, perip s3 ip = if reg r && N.eqb ip (cip r) then norm (sumf (w_ip ip) (conns s) - 1) else perip s ip).
+Proof. exact reject_conc_serveconn. Qed.
+Print Assumptions C12_rejections_serveconn.
+
+(* Serve with every worker of its pool busy: wp.Serve cannot succeed; 503, closed, the open count taken back. *)
+Theorem C12_rejections_serve : forall cf s c r k lp, reach cf s -> nth_error (conns s) c = Some r -> ph r = POpened -> cvia r = VServe k ->
+  nth_error (loops s) k = Some lp -> ready lp <= 0 -> effConc cf <= wcount lp ->
+  step cf s (LGetChOk c) = None /\
+  exists s1 s2 s3 r3, step cf s (LGetChFail c) = Some s1 /\ step cf s1 (LRejectDec c) = Some s2 /\
+    step cf s2 (LRejectConc c) = Some s3 /\
+    nth_error (conns s3) c = Some r3 /\ rejected_with StatusServiceUnavailable r3 /\
+    concurrency s3 = concurrency s /\ open s3 = open s - 1 /\
+    (forall ip, perip s3 ip = if reg r && N.eqb ip (cip r) then norm (sumf (w_ip ip) (conns s) - 1) else perip s ip).
+Proof. exact reject_conc_serve. Qed.
+Print Assumptions C12_rejections_serve.
+
+(* On the way to a rejection the connection's goroutine has exactly one move, and a rejected connection stays done and closed
+   (so it is never served). *)
+Theorem C12_rejections_only_move : forall cf s c r l s', reach cf s -> nth_error (conns s) c = Some r ->
+  label_conn l = Some c -> step cf s l = Some s' ->
+  match ph r with
+  | PArrived => l = LRegister c
+  | PIPOver => l = LRejectIP c
+  | PConcOver => l = LAcquireFail c
+  | PNoWorker => l = LRejectDec c
+  | PRejecting => l = LRejectConc c
+  | _ => True
+  end.
+Proof. exact only_move_when_rejecting. Qed.
+Print Assumptions C12_rejections_only_move.
+
+Theorem C12_rejected_stays_closed : forall cf s, reach cf s ->
+  Forall (fun r => resp r <> 0 -> ph r = PDone /\ closed r = true) (conns s).
+Proof. exact rejected_stays. Qed.
+Print Assumptions C12_rejected_stays_closed.
+
+(* The counters are exact at every moment: each is the number of connections currently holding a unit of it. *)
+Theorem C12_exact_accounting : forall cf s, reach cf s ->
+  concurrency s = sumf w_conc (conns s) /\ open s = sumf w_open (conns s) /\
+  (forall ip, perip s ip = norm (sumf (w_ip ip) (conns s))) /\ serving s = n_running s.
+Proof. exact exact_accounting. Qed.
+Print Assumptions C12_exact_accounting.
+
+(* Balance: once every connection has been closed, or hijacked and released, everything is back to zero, the per-IP map is
+   empty (no key left behind), and s.serving is the number of running Serve calls. *)
+Theorem C12_balance : forall cf s, reach cf s -> all_terminal s = true ->
+  concurrency s = 0 /\ open s = 0 /\ perip_empty s /\ serving s = n_running s.
+Proof. exact balance'. Qed.
+Print Assumptions C12_balance.
+
+(* While hijack handlers still hold connections, only their per-IP units remain. *)
+Theorem C12_balance_with_hijacked : forall cf s, reach cf s -> all_done s = true ->
+  concurrency s = 0 /\ open s = 0 /\ forall ip, perip s ip = norm (sumf (w_ip ip) (conns s)).
+Proof. exact balance_with_hijacked. Qed.
+Print Assumptions C12_balance_with_hijacked.
+
+(* What GetCurrentConcurrency and GetOpenConnectionsCount RETURN at quiescence is 0 — with one Serve running, with none
+   (ServeConn only, or every listener closed), with several: [reach] covers all of them (examples below).  This is the code after
+   "fix: GetOpenConnectionsCount must not count Serve loops as connections" (fff04fe); before it the getter returned open - 1. *)
+Theorem C12_getter_zero_at_quiescence : forall cf s, reach cf s -> all_terminal s = true ->
+  get_concurrency s = 0 /\ get_open s = 0.
+Proof. exact getters_zero_at_quiescence. Qed.
+Print Assumptions C12_getter_zero_at_quiescence.
+
+Theorem C12_getters_never_negative : forall cf s, reach cf s -> 0 <= get_concurrency s /\ 0 <= get_open s.
+Proof. exact getters_nonneg. Qed.
+Print Assumptions C12_getters_never_negative.
+
+(* perIPConn.Close is idempotent in this model (the wrapper is identified with its connection). *)
+Theorem C12_close_idempotent : forall cf s c r s', nth_error (conns s) c = Some r -> closed r = true -> reg r = false ->
+  step cf s (LUserClose c) = Some s' ->
+  concurrency s' = concurrency s /\ open s' = open s /\ perip s' = perip s /\ conns s' = conns s /\ loops s' = loops s.
+Proof. exact close_idempotent. Qed.
+Print Assumptions C12_close_idempotent.
+
+(* ---- the wrapper pool (second LTS of Model/Limits.v: perIPConn objects keep their identity and are recycled) ------------ *)
+(* FINDING peripconn-stale-close-hits-recycled-wrapper: "a further Close is a no-op" is FALSE of the code once the object has been
+   recycled: the Close made by the goroutine of connection 0 closes connection 1 and releases its per-IP unit. *)
+Theorem C12_pool_close_hits_other_connection_refuted :
+  exists s, prun pinit stale_trace = Some s /\ closes_own s = false /\ uclosed s = [(0, 0); (0, 1)]%nat /\
+            pm s 33686018%N = None /\ nth_error (owner s) 1 = Some 0%nat.
+Proof. exact stale_close_hits_other_connection. Qed.
+Print Assumptions C12_pool_close_hits_other_connection_refuted.
+
+(* the guard that excludes it: nobody calls Close twice through the same acquisition; then every Close closes the caller's own connection,
+   for any number of connections, any recycling order of the pool, any interleaving *)
+Theorem C12_pool_closes_own_when_closed_once : forall tr s, prun pinit tr = Some s -> NoDup (closers tr) -> closes_own s = true.
+Proof. exact closes_own_when_closed_once. Qed.
+Print Assumptions C12_pool_closes_own_when_closed_once.
+
+(* ---- non-vacuity: the three configurations of the getter statement, a 429, a 503 on each path, a hijack -------------------- *)
+Definition a1 := ATcp [1;1;1;1]%N.
+Definition a2 := ATcp [2;2;2;2]%N.
+
+Definition serve_one (c : nat) (a : addr) (k : nat) : list label :=
+  [LAccept k a; LRegister c; LOpenInc c; LGetChOk c; LStart c].
+Definition end_serve (c : nat) : list label := [LFinish c; LCleanupOpen c; LCleanupConc c; LCloseAfter c; LWorkerRelease c].
+Definition end_sc (c : nat) : list label := [LFinish c; LCleanupOpen c; LCloseAfter c; LReleaseConc c].
+
+Example C12_ex_quiescent_one_serve_running :
+  match run (mkCfg 2 1 false) init ([LServeStart] ++ serve_one 0 a1 0 ++ serve_one 1 a2 0 ++ end_serve 0 ++ end_serve 1) with
+  | Some s => all_terminal s = true /\ n_running s = 1 /\ get_open s = 0 /\ get_concurrency s = 0 /\ perip s 16843009%N = None
+  | None => False
+  end.
+Proof. vm_compute. repeat split; reflexivity. Qed.
+
+Example C12_ex_quiescent_no_serve :
+  match run (mkCfg 2 1 false) init ([LServeConn a1; LRegister 0; LTryAcquire 0; LOpenInc 0] ++ end_sc 0) with
+  | Some s => all_terminal s = true /\ n_running s = 0 /\ get_open s = 0 /\ get_concurrency s = 0
+  | None => False
+  end.
+Proof. vm_compute. repeat split; reflexivity. Qed.
+
+Example C12_ex_quiescent_listener_closed :
+  match run (mkCfg 2 1 false) init ([LServeStart] ++ serve_one 0 a1 0 ++ [LServeStop 0] ++ end_serve 0) with
+  | Some s => all_terminal s = true /\ n_running s = 0 /\ serving s = 0 /\ get_open s = 0
+  | None => False
+  end.
+Proof. vm_compute. repeat split; reflexivity. Qed.
+
+Example C12_ex_quiescent_three_serves :
+  match run (mkCfg 2 1 false) init ([LServeStart; LServeStart; LServeStart] ++ serve_one 0 a1 2 ++ end_serve 0) with
+  | Some s => all_terminal s = true /\ n_running s = 3 /\ serving s = 3 /\ get_open s = 0
+  | None => False
+  end.
+Proof. vm_compute. repeat split; reflexivity. Qed.
+
+Example C12_ex_429_and_503 :
+  match run (mkCfg 1 1 false) init
+        ([LServeConn a1; LRegister 0; LTryAcquire 0; LOpenInc 0;
+          LServeConn a1; LRegister 1; LRejectIP 1;
+          LServeConn a2; LRegister 2; LTryAcquire 2; LAcquireFail 2; LRejectConc 2;
+          LServeStart; LAccept 0 a2; LRegister 3; LOpenInc 3; LGetChOk 3; LStart 3;
+          LAccept 0 AOther; LOpenInc 4; LGetChFail 4; LRejectDec 4; LRejectConc 4]) with
+  | Some s => map resp (conns s) = [0; 429; 503; 0; 503] /\ n_serving s = 2 /\ get_open s = 2 /\ get_concurrency s = 2
+              /\ perip s 16843009%N = Some 1 /\ perip s 33686018%N = Some 1
+  | None => False
+  end.
+Proof. vm_compute. repeat split; reflexivity. Qed.
+
+Example C12_ex_hijack_keeps_only_the_perip_unit :
+  match run (mkCfg 1 1 false) init
+        [LServeConn a1; LRegister 0; LTryAcquire 0; LOpenInc 0; LHijack 0; LCleanupOpen 0; LCloseAfter 0; LReleaseConc 0] with
+  | Some s => all_done s = true /\ all_terminal s = false /\ get_open s = 0 /\ get_concurrency s = 0 /\ perip s 16843009%N = Some 1
+              /\ match step (mkCfg 1 1 false) s (LHijackDone 0) with
+                 | Some s' => all_terminal s' = true /\ perip s' 16843009%N = None
+                 | None => False
+                 end
   | None => False
   end.
 Proof. vm_compute. repeat split; reflexivity. Qed.
